@@ -16,7 +16,7 @@ func init() {
 	Registry["C03"] = func(r *Run) *core.Report { return mapProtocol(r, "C03", 0) }
 	Registry["C04"] = func(r *Run) *core.Report { return mapProtocol(r, "C04", 1) }
 	expl := func(which, p1 string) string {
-		return "Linearizability of " + which + " is NOT decided (it quantifies over interleavings). Decided, on every CFG path, are the protocol-shape obligations without which this design cannot be linearizable: " + p1 + " - decided for Load and for every other function reachable from the API that reads a bucket slot outside the chain's lock and returns a (value, found) pair; (P2) unique value pointers / immutable entries (slot pointers are per-call allocations, published entries are never written); (P3) after taking the bucket lock a writer touches the bucket only after seeing the resize flag clear and then the table pointer unchanged, in that order, and a bucket-word write justified by the lock occurs in the compute core (or in a function only it calls) and nowhere else - the validation is decided on the core's paths; (P4) in resize all bucket copies precede the single publishing store of the very table they filled, which precedes clearing the flag, and the table pointer is stored nowhere else except the constructor; (P5) bucket words are written only under the bucket lock: in the compute core on every path, and at every other write of a bucket word - atomic store, swap, add or compare-and-swap, or plain - in any function reachable from the public API, unless the bucket written is not yet published (the copy's destination, a new overflow bucket); (P6) the copy runs under the source bucket's lock and leaves the source intact; (P7) Clear's resize request reaches the publishing store of a fresh table on every path to its return (it cannot be dropped); (P8) bucket array, mask and seed of an attempt come from one table value; (P10) a packed bucket word (meta / top-hash) is rewritten from a read of the same bucket's word; (P11) the lock-free lookup reports a key absent only on a path whose last chain-link test saw 'next == nil'; (P3a/b) the resize flag goes 0 -> one non-zero constant -> 0 and every test of it tells that constant from 0, and the table re-check compares pointer identity; (P12) packed-word arithmetic is carried out in 64 bits; (P14) a slot write pairs a bucket with an index found in that very bucket (both used directly, or remembered together; one index value, one bucket value)."
+		return "Linearizability of " + which + " is NOT decided (it quantifies over interleavings). Decided, on every CFG path, are the protocol-shape obligations without which this design cannot be linearizable: " + p1 + " - decided for Load and for every other function reachable from the API that reads a bucket slot outside the chain's lock and returns a (value, found) pair; (P2) unique value pointers / immutable entries (slot pointers are per-call allocations, published entries are never written); (P3) after taking the bucket lock a writer touches the bucket only after seeing the resize flag clear and then the table pointer unchanged, in that order, and a bucket-word write justified by the lock occurs in the compute core (or in a function only it calls) and nowhere else - the validation is decided on the core's paths; (P4) in resize all bucket copies precede the single publishing store of the very table they filled, which precedes clearing the flag, and the table pointer is stored nowhere else except the constructor; (P5) bucket words are written only under the bucket lock: in the compute core on every path, and at every other write of a bucket word - atomic store, swap, add or compare-and-swap, or plain - in any function reachable from the public API, unless the bucket written is not yet published (the copy's destination, a new overflow bucket); (P6) the copy runs under the source bucket's lock and leaves the source intact; (P7) Clear's resize request reaches the publishing store of a fresh table on every path to its return (it cannot be dropped); (P8) bucket array, mask and seed of an attempt come from one table value, in every function reachable from the API that selects a bucket by a hashed key; (P10) a packed bucket word (meta / top-hash) is rewritten from a read of the same bucket's word; (P11) the lock-free lookup - and any other lock-free reader whose 'not found' some caller takes as final (returns without going on to the compute core) - reports a key absent only on a path whose last chain-link test saw 'next == nil'; (P3a/b) the resize flag goes 0 -> one non-zero constant -> 0 and every test of it tells that constant from 0, and the table re-check compares pointer identity; (P12) packed-word arithmetic is carried out in 64 bits; (P14) a slot write pairs a bucket with an index found in that very bucket (both used directly, or remembered together; one index value, one bucket value)."
 	}
 	Metas["C03"] = Meta{Explanation: expl("Map", "(P1) the lock-free reader returns a value only after reading the value pointer, then the key pointer, matching the key, and re-reading the same value slot unchanged"),
 		Rule:        "one obligation per (rule, function/specialisation, exit | site); non-trivial = decided by exploring the product of the CFG with the protocol automaton or by a provenance query",
@@ -342,7 +342,104 @@ func p12WordWidth(r *Run, rep *core.Report, rule string) {
 // live further down the chain - slots are freed by deletes and reused, so no occupancy pattern of an earlier
 // bucket implies the end of the chain.
 func p11Absence(r *Run, rep *core.Report, rule string, mm *core.MapModel) {
-	f := mm.Methods["Load"]
+	p11AbsenceOn(r, rep, rule, mm, mm.Methods["Load"])
+	// a second lock-free reader whose 'not found' some caller takes as final (it returns without going on to the locked
+	// read-modify-write) answers the same question as Load and must not give up before the end of the chain either; one
+	// that is only a fast path in front of the locked operation may give up whenever it likes
+	readers, _ := secondReaders(r, mm)
+	_, others := secondReadersAll(r, mm)
+	for _, g := range append(readers, others...) {
+		if missTakenAsFinal(r, mm, g) {
+			p11AbsenceOn(r, rep, rule, mm, g)
+		}
+	}
+}
+
+// missTakenAsFinal: at some call site of reader g, a path from the 'not found' edge of the test of g's found flag
+// reaches a return of the caller without a call that leads into the compute core.
+func missTakenAsFinal(r *Run, mm *core.MapModel, g *ssa.Function) bool {
+	final := false
+	for _, site := range core.CallSitesOf(r.P.Funcs, g) {
+		call, ok := site.(*ssa.Call)
+		if !ok {
+			continue
+		}
+		h := call.Parent()
+		// blocks entered on the miss edge of a branch on g's found flag
+		for _, b := range h.Blocks {
+			if !onFlagEdge(b, call, false) {
+				continue
+			}
+			seen := map[*ssa.BasicBlock]bool{}
+			var walk func(x *ssa.BasicBlock)
+			walk = func(x *ssa.BasicBlock) {
+				if seen[x] || final {
+					return
+				}
+				seen[x] = true
+				for _, in := range x.Instrs {
+					if c, isC := in.(ssa.CallInstruction); isC {
+						if cal := core.Callee(c); cal != nil {
+							if cal == mm.Core {
+								return
+							}
+							if cc, _ := coreCallOf(mm, cal, 0); cc != nil {
+								return
+							}
+						}
+					}
+					if _, isRet := in.(*ssa.Return); isRet {
+						final = true
+						return
+					}
+				}
+				for _, n := range x.Succs {
+					walk(n)
+				}
+			}
+			walk(b)
+		}
+	}
+	return final
+}
+
+// onFlagEdge: like onEdgeOf, for a reader whose found flag is its second result or its only (boolean) result.
+func onFlagEdge(b *ssa.BasicBlock, call *ssa.Call, hit bool) bool {
+	if onEdgeOf(b, call, hit) {
+		return true
+	}
+	if len(b.Preds) != 1 {
+		return false
+	}
+	p := b.Preds[0]
+	iff, ok := p.Instrs[len(p.Instrs)-1].(*ssa.If)
+	if !ok {
+		return false
+	}
+	cond := iff.Cond
+	neg := false
+	for {
+		if u, isU := cond.(*ssa.UnOp); isU && u.Op == token.NOT {
+			neg = !neg
+			cond = u.X
+			continue
+		}
+		break
+	}
+	if cond != ssa.Value(call) {
+		return false
+	}
+	hitIdx := 0
+	if neg {
+		hitIdx = 1
+	}
+	if hit {
+		return p.Succs[hitIdx] == b
+	}
+	return p.Succs[1-hitIdx] == b
+}
+
+func p11AbsenceOn(r *Run, rep *core.Report, rule string, mm *core.MapModel, f *ssa.Function) {
 	if f == nil {
 		return
 	}
@@ -721,6 +818,17 @@ func onlyCalledFrom(r *Run, reach map[*ssa.Function]bool, root *ssa.Function) ma
 // without the chain's lock and not on an unpublished bucket; those with the reader's result shape (value, found) are
 // returned as functions, the others described.
 func secondReaders(r *Run, mm *core.MapModel) (readers []*ssa.Function, others []string) {
+	readers, _ = secondReadersAll(r, mm)
+	_, fs := secondReadersAll(r, mm)
+	for _, f := range fs {
+		others = append(others, fn(f)+" reads a bucket slot lock-free")
+	}
+	return readers, others
+}
+
+// secondReadersAll: as secondReaders, the functions of other shapes returned as functions (those with a boolean
+// result only: a presence test).
+func secondReadersAll(r *Run, mm *core.MapModel) (readers []*ssa.Function, others []*ssa.Function) {
 	load := mm.Methods["Load"]
 	mine := map[string]bool{}
 	for _, b := range mm.BucketT {
@@ -764,7 +872,10 @@ func secondReaders(r *Run, mm *core.MapModel) (readers []*ssa.Function, others [
 			readers = append(readers, f)
 			continue
 		}
-		others = append(others, fn(f)+" reads "+word.Key()+" lock-free at "+r.P.InstrPos(first))
+		_ = word
+		if res.Len() == 1 && typeName(res.At(0).Type()) == "bool" {
+			others = append(others, f)
+		}
 	}
 	return readers, others
 }
@@ -1368,8 +1479,9 @@ func p8Root(r *Run, rep *core.Report, prop string, mm *core.MapModel) {
 			continue
 		}
 		mine := false
-		for _, g := range []*ssa.Function{mm.Methods["Load"], mm.Core, mm.Copy} {
-			if strings.HasPrefix(o.Construct, fn(g)+" ") {
+		sel, _ := rootSelectors(r, mm)
+		for _, g := range sel {
+			if g != nil && strings.HasPrefix(o.Construct, fn(g)+" ") {
 				mine = true
 			}
 		}
